@@ -25,6 +25,7 @@ from ..alg import decide_zero
 from ..core import AnalysisError, Ctx, Finding
 from ..domain import make_interp
 from ..libsum import Vec, install_vec
+from ..num import Num
 from ..srcmodel import load
 
 PMI = "pygaps.characterisation.psd_micro"
@@ -268,6 +269,41 @@ def r_params(ctx: Ctx, model):
                nontrivial_key=("adsorbent", nm))
 
 
+# published adsorbent parameter sets (Horvath & Kawazoe 1983 for carbon; Saito & Foley 1991 / Cheng & Yang 1994 for the oxide ions),
+# in the units of models_hk.HK_KEYS (nm, nm3, nm3, molecules/m2)
+HK_ADSORBENTS = {
+    "Carbon(HK)": {"molecular_diameter": "0.34", "polarizability": "1.02E-3", "magnetic_susceptibility": "1.35E-7", "surface_density": "3.845E19"},
+    "AlSiOxideIon": {"molecular_diameter": "0.276", "polarizability": "2.5E-3", "magnetic_susceptibility": "1.3E-8", "surface_density": "1.315E19"},
+    "AlPhOxideIon": {"molecular_diameter": "0.260", "polarizability": "2.5E-3", "magnetic_susceptibility": "1.3E-8", "surface_density": "1.000E19"},
+}
+
+
+def r_data(ctx: Ctx, model):
+    """the three built-in adsorbent sets the property quantifies over are the published ones, each complete and independent"""
+    from fractions import Fraction
+    ctx.rule("H-data: get_hk_model(name) returns, for the three built-in names, the published parameter set (every key of HK_KEYS, "
+             "values as tabulated); unknown names are refused; a user dictionary is returned as given")
+    I = make_interp(model)
+    fi = model.func("pygaps.characterisation.models_hk.get_hk_model")
+    for name, want in HK_ADSORBENTS.items():
+        outs = I.explore(lambda I: I.call_func(fi, [name], {}, None))
+        ok = len(outs) == 1 and outs[0].kind == "ok" and isinstance(outs[0].value, dict)
+        bad = []
+        if ok:
+            got = outs[0].value
+            for k_, v_ in want.items():
+                g = got.get(k_)
+                if not (isinstance(g, Num) and g.is_const() and g.value() == Fraction(v_)):
+                    bad.append(f"{k_}: {I.describe(g)} (published {v_})")
+            bad += [f"extra key {k_}" for k_ in got if k_ not in want]
+        ctx.ob(ok and not bad, Finding("C17.H-data", fi.where, f"hk-model|{name}|{';'.join(b.split(':')[0] for b in bad) or 'outcome'}",
+                                       f"get_hk_model({name!r}): {'; '.join(bad) if bad else outs}"), nontrivial_key=("hk-data", name))
+    outs = I.explore(lambda I: I.call_func(fi, ["NoSuchAdsorbent"], {}, None))
+    ctx.ob(all(o.kind == "raise" and o.exc.is_a("ParameterError") for o in outs),
+           Finding("C17.H-data", fi.where, "hk-model|unknown-name", "an unknown adsorbent model name must raise ParameterError"),
+           nontrivial_key=("hk-data", "unknown"))
+
+
 def run(ctx: Ctx):
     model = load(ctx.root)
     ctx.assume("scipy.optimize.minimize_scalar(method='bounded') returns a minimiser of its objective inside the bounds")
@@ -275,6 +311,7 @@ def run(ctx: Ctx):
     r_solver(ctx, model)
     r_dispatch(ctx, model)
     r_params(ctx, model)
+    r_data(ctx, model)
     from ..sites import no_memoisation
     ctx.rule("H-fresh: no caching decorator on any function of pygaps.characterisation.")
     no_memoisation(ctx, load(ctx.root), "C17", "H-fresh", ('pygaps.characterisation.',),
